@@ -452,6 +452,48 @@ package mobius
 //@   before call hotline.NewField#7 assert arg0[0] == 1 && arg0[1] == 80 && ptsto(arg1, art.FirstChildArt) && len(arg1) == 4
 //@   before call hotline.NewField#9 assert arg0[0] == 1 && arg0[1] == 77 && bytes(arg1) == bytes(art.Data)
 
+// C13: a private message is addressed to the user holding the requested ID, honours THAT user's
+// refuse-private-messages flag (flag 2 of the recipient's flag word) -- the refusal notice goes back
+// to the sender -- and the automatic reply comes from the recipient's stored text.
+//@ func HandleSendInstantMsg(cc *hotline.ClientConn, t *hotline.Transaction) (res []hotline.Transaction)
+//@   property C13
+//@   let to := callres("(hotline.ClientManager).Get")
+//@   before call (hotline.ClientManager).Get assert arg1[0] == reqdata(0, 103)[0] && arg1[1] == reqdata(0, 103)[1]
+//@   before call (*hotline.UserFlags).IsSet assert arg1 == 2 && arg0 == addrof(to.Flags)
+//@   before call hotline.NewTransaction#1 assert arg0[0] == 0 && arg0[1] == 104 && arg1[0] == reqdata(0, 103)[0] && arg1[1] == reqdata(0, 103)[1]
+//@   before call hotline.NewTransaction#2 assert arg0[0] == 0 && arg0[1] == 104 && arg1 == cc.ID && callres("(*hotline.UserFlags).IsSet")
+//@   before call hotline.NewTransaction#3 assert arg0[0] == 0 && arg0[1] == 104 && arg1 == cc.ID && len(to.AutoReply) > 0
+//@   before call hotline.NewField#1 assert arg0[0] == 0 && arg0[1] == 101 && same(arg1, reqdata(0, 101))
+//@   before call hotline.NewField#2 assert arg0[0] == 0 && arg0[1] == 102 && same(arg1, cc.UserName)
+//@   before call hotline.NewField#3 assert arg0[0] == 0 && arg0[1] == 103 && ptsto(arg1, cc.ID) && len(arg1) == 2
+
+// C20: a threaded-news change is acknowledged (nil error) only after the news file was rewritten --
+// through writeFile, which replaces it atomically -- whatever the change turned out to touch; a
+// change that is only made in memory is lost by the next restart although the client was told it
+// succeeded.
+//@ func (n *ThreadedNewsYAML) DeleteNewsItem(newsPath []string) (err error)
+//@   property C20
+//@   ensures err == nil ==> called("(*mobius.ThreadedNewsYAML).writeFile") && callres("(*mobius.ThreadedNewsYAML).writeFile") == nil
+//@ func (n *ThreadedNewsYAML) DeleteArticle(newsPath []string, articleID uint32, recursive bool) (err error)
+//@   property C20
+//@   ensures err == nil ==> called("(*mobius.ThreadedNewsYAML).writeFile") && callres("(*mobius.ThreadedNewsYAML).writeFile") == nil
+//@ func (n *ThreadedNewsYAML) PostArticle(newsPath []string, parentArticleID uint32, article hotline.NewsArtData) (err error)
+//@   property C20
+//@   ensures err == nil ==> called("(*mobius.ThreadedNewsYAML).writeFile") && callres("(*mobius.ThreadedNewsYAML).writeFile") == nil
+//@ func (n *ThreadedNewsYAML) CreateGrouping(newsPath []string, name string, t [2]byte) (err error)
+//@   property C20
+//@   ensures err == nil ==> called("(*mobius.ThreadedNewsYAML).writeFile") && callres("(*mobius.ThreadedNewsYAML).writeFile") == nil
+
+// C17: an administrator's disconnect request is refused for two reasons only -- the requester may not
+// disconnect users, or the target cannot be disconnected; in every other case the target IS
+// disconnected, whether or not the requested ban could be saved.
+//@ func HandleDisconnectUser(cc *hotline.ClientConn, t *hotline.Transaction) (res []hotline.Transaction)
+//@   property C17
+//@   before call (*hotline.ClientConn).NewErrReply#1 assert !priv(cc, 22)
+//@   before call (*hotline.ClientConn).NewErrReply#2 assert priv(clientConn, 23)
+//@   before any call (*hotline.ClientConn).NewErrReply#3 assert false
+//@   before any call (*hotline.ClientConn).NewErrReply#4 assert false
+
 // ---------------------------------------------------------------------------------
 // C18: creating a category or bundle never replaces an existing item (which would discard its
 // articles): when the name is taken at that path the call fails and the item is untouched; when it
@@ -475,6 +517,18 @@ package mobius
 //@ func HandleDisconnectUser(cc *hotline.ClientConn, t *hotline.Transaction) (res []hotline.Transaction)
 //@   property C03
 //@   before call mobius.HandleDisconnectUser$1 assert clientConn != nil
+
+// C16: an edit through the multi-user editor stores the bitmap the editor sent -- bits cleared there
+// are cleared in the account (the sent bytes replace the stored ones; privileges are never merged
+// in one by one).
+//@ func HandleUpdateUser(cc *hotline.ClientConn, t *hotline.Transaction) (res []hotline.Transaction)
+//@   property C16
+//@   before call builtin.copy#1 assert ptsto(arg0, acc.Access) && len(arg0) == 8 && same(arg1, callres("hotline.GetField#8").Data) && callres("hotline.GetField#7") != nil
+//@   before any call (*hotline.AccessBitmap).Set assert false
+//@   before any store Account.Access assert false
+//@   before call (hotline.AccountManager).Update assert arg1 == *acc
+//@   before call hotline.GetField#7 assert arg0[0] == 0 && arg0[1] == 110
+//@   before call hotline.GetField#8 assert arg0[0] == 0 && arg0[1] == 110
 
 //@ func HandleUpdateUser(cc *hotline.ClientConn, t *hotline.Transaction) (res []hotline.Transaction)
 //@   property C03
